@@ -1165,10 +1165,16 @@ struct DefineDestructor : std::integral_constant<bool, !std::is_trivially_destru
 template <class T>
 struct DefineDestructor<T, false> : std::integral_constant<bool, true> {};
 
+/// Only a dynamic vector without inline elements may hold an incomplete type: a FixedCapacityVector of capacity 0 owns
+/// no dynamic storage either, and stays trivially destructible like the other ones
+template <class T, bool WithInlineElements, class GrowingPolicy>
+struct DefineVectorDestructor
+    : DefineDestructor<T, WithInlineElements || !std::is_same<GrowingPolicy, DynamicGrowingPolicy>::value> {};
+
 /// Implementation class with definitions independent from the traits of type T and number of elements
 template <class T, class Alloc, class SizeType, bool WithInlineElements, class GrowingPolicy>
 class VectorImpl : public VectorDestr<T, Alloc, SizeType, WithInlineElements, GrowingPolicy,
-                                      DefineDestructor<T, WithInlineElements>::value> {
+                                      DefineVectorDestructor<T, WithInlineElements, GrowingPolicy>::value> {
  public:
   using value_type = T;
   using iterator = T *;
@@ -1457,7 +1463,7 @@ class VectorImpl : public VectorDestr<T, Alloc, SizeType, WithInlineElements, Gr
   template <class... Args>
   explicit VectorImpl(Args &&...args) noexcept
       : VectorDestr<T, Alloc, SizeType, WithInlineElements, GrowingPolicy,
-                    DefineDestructor<T, WithInlineElements>::value>(std::forward<Args &&>(args)...) {}
+                    DefineVectorDestructor<T, WithInlineElements, GrowingPolicy>::value>(std::forward<Args &&>(args)...) {}
 
  private:
   // Range operations are dispatched on the iterator category: a single pass range can neither be measured with
